@@ -72,12 +72,26 @@ func VerifC10Service() {
 	for r := 0; r < nReads; r++ {
 		kind := 0
 		if r == 0 || vrt_Tier() > 0 {
-			kind = vrt_Choose("chunkKind", 3)
+			kind = vrt_Choose("chunkKind", 4)
+			if kind == 3 {
+				kind = 4
+			}
 		} else {
 			// quick tier: the second read is a heartbeat or half a frame (the first read has the variety)
 			kind = 2 + vrt_Choose("secondKind", 2)
 		}
 		switch kind {
+		case 4: // two sub-package frames of one message ID that disagree about the total
+			f1 := vGenFrame("sp1", 0x0801, false, 1, 0)
+			f1.total, f1.number = uint16(1+vrt_Choose("total1", 2)), 1
+			vNoSpecialChecksum(f1)
+			f2 := &vFrame{id: 0x0801, phone: f1.phone, serial: f1.serial, body: []byte{7}}
+			f2.total = uint16(1 + vrt_Choose("total2", 3))
+			nb := vrt_Bytes("number2", 2)
+			vrtKSpecial("n2sp", 0, vrtEscSpecial, nb)
+			f2.number = uint16(nb[0])<<8 | uint16(nb[1])
+			vNoSpecialChecksum(f2)
+			vrt_ConnPushRead(conn, append(f1.bytes(), f2.bytes()...))
 		case 3:
 			f := vGenFrame("hb", 0x0002, false, 0, 0)
 			vrt_ConnPushRead(conn, f.bytes())
